@@ -1,9 +1,18 @@
-"""Configuration of the properties that need more than the core world (filled in per property)."""
+"""Property -> hooks module (operations, oracles and configuration beyond the core world)."""
+import importlib
 
-
-def configure(prop, cfg, r, tier):
-    raise KeyError(prop)
+MODULES = {"C07": "c07", "C18": "c18"}
 
 
 def hooks_for(prop):
-    return None
+    name = MODULES.get(prop)
+    if name is None:
+        return None
+    return importlib.import_module(f"xgiverif.props.{name}")
+
+
+def configure(prop, cfg, r, tier):
+    h = hooks_for(prop)
+    if h is None:
+        raise KeyError(prop)
+    h.configure(cfg, r, tier)
